@@ -768,6 +768,7 @@ class Ctx:
         self._obs_model_failed = False
         self.path_note = []
         self._uf_terms = {}
+        self.atan2_log = []      # (y, x, result) of every symbolic atan2 evaluated on this path, in order
         self._mods = []
         self.solver.push()
 
@@ -1488,7 +1489,9 @@ class Ctx:
                             z3.Implies(z3.And(ye == 0, xe > 0), t == 0),
                             z3.Implies(ye > 0, t > 0), z3.Implies(ye < 0, t < 0),
                             z3.Implies(z3.And(ye == 0, xe == 0), t == 0))
-        return SR(t, _or(x.n, y.n))
+        r = SR(t, _or(x.n, y.n))
+        self.atan2_log.append((y, x, r))
+        return r
 
     def upow(self, x, p):
         """x**p for non-integer rational p"""
